@@ -415,7 +415,7 @@ fn still_fails(check: &dyn Check, cap: &Capture, scenario: &J, key: &str) -> Opt
 }
 
 /// Greedy delta debugging driven by the check's own `shrink`.
-pub fn minimise(check: &dyn Check, cap: &Capture, scenario: &J, key: &str, budget: usize) -> (J, String, usize) {
+pub fn minimise(check: &dyn Check, cap: &Capture, scenario: &J, key: &str, budget: usize, seconds: u64) -> (J, String, usize) {
     let mut best = scenario.clone();
     let mut detail = still_fails(check, cap, &best, key).unwrap_or_default();
     let mut spent = 1usize;
@@ -425,7 +425,7 @@ pub fn minimise(check: &dyn Check, cap: &Capture, scenario: &J, key: &str, budge
     'outer: loop {
         let candidates = check.shrink(&best);
         for cand in candidates {
-            if spent >= budget || started.elapsed().as_secs() > 150 {
+            if spent >= budget || started.elapsed().as_secs() > seconds {
                 break 'outer;
             }
             if cand == best {
@@ -605,6 +605,7 @@ pub fn run_check(check: &dyn Check, tier: Tier) -> i32 {
     let known = load_known();
     let mut lines: Vec<String> = Vec::new();
     let mut unlisted = 0u64;
+    let minimise_started = std::time::Instant::now();
     let mut known_matched: BTreeMap<String, u64> = BTreeMap::new();
 
     // Listed known findings of this property are re-executed from their stored witness, so the
@@ -682,7 +683,9 @@ pub fn run_check(check: &dyn Check, tier: Tier) -> i32 {
             ));
             continue;
         }
-        let (small, small_detail, spent) = minimise(check, &cap, &scenario, &key, 1500);
+        // (150 s for one class, 400 s for all classes of one batch together)
+        let left = 400u64.saturating_sub(minimise_started.elapsed().as_secs());
+        let (small, small_detail, spent) = minimise(check, &cap, &scenario, &key, 1500, left.min(150));
         // The minimised scenario must fail the same way when executed again
         let confirmed = still_fails(check, &cap, &small, &key);
         let (final_scn, final_detail) = match confirmed {
